@@ -57,6 +57,38 @@ def call_np(interp, name, args, kwargs, lineno):
         return Box(A.hstack(ctx, list(pieces), origin=lineno))
     if name == 'tile':
         return Box(A.tile(ctx, args[0], args[1], origin=lineno))
+    if name == 'linspace' and len(args) >= 3 and not kwargs:
+        lo, hi, n = R(args[0]), R(args[1]), R(args[2])
+        if (n - 1).is_zero():
+            return Box(A.const_arr((ONE,), lo))
+        step = (hi - lo) / (n - 1)
+        return Box(Arr((n,), lambda idx: lo + idx[0] * step, 'real', origin=lineno))
+    if name == 'outer' and len(args) == 2 and not kwargs:
+        a_, b_ = A.ravel_arr(ctx, snap(args[0])), A.ravel_arr(ctx, snap(args[1]))
+        return Box(Arr((a_.shape[0], b_.shape[0]), lambda idx: a_.at((idx[0],)) * b_.at((idx[1],)),
+                       'int' if a_.kind == b_.kind == 'int' else 'real', origin=lineno))
+    if name == 'flip' and len(args) == 1 and not kwargs:
+        a_ = snap(args[0])
+        if a_.ndim != 1:
+            raise AnalysisError("np.flip of an n-D array")
+        n_ = a_.shape[0]
+        return Box(Arr((n_,), lambda idx: a_.at((n_ - 1 - idx[0],)), a_.kind, origin=lineno))
+    if name == 'roll' and len(args) == 2 and not kwargs:
+        a_ = snap(args[0])
+        k_ = R(args[1])
+        if a_.ndim != 1 or not k_.is_const():
+            raise AnalysisError("np.roll: only a constant shift of a 1-D array is modelled")
+        n_ = a_.shape[0]
+        kk = int(k_.const_value())
+
+        def rl(idx):
+            j = idx[0] - kk
+            if ctx.le(ZERO, j) and ctx.lt(j, n_):
+                return a_.at((j,))
+            return a_.at((j + n_,)) if kk > 0 else a_.at((j - n_,))
+        return Box(Arr((n_,), rl, a_.kind, origin=lineno))
+    if name == 'clip' and len(args) == 3 and not kwargs:
+        return call_np(interp, 'minimum', [call_np(interp, 'maximum', [args[0], args[1]], {}, lineno), args[2]], {}, lineno)
     if name == 'stack':
         pieces = args[0]
         ax = kwargs.get('axis', args[1] if len(args) > 1 else ZERO)
